@@ -1,7 +1,7 @@
 """Acceptance-configuration closure + point-wise equivalence oracle over flatsrv (C01 and friends)."""
 import json, os, sys, time, hashlib
 import flatlib, nlmodel
-from delivered import Delivered, Undecided, TOL
+from delivered import Delivered, Undecided, LPFMDisagree, TOL
 
 LIN3 = ['AlgebraicConstraint< LinTerms, RhsLE >', 'AlgebraicConstraint< LinTerms, RhsEQ >',
         'AlgebraicConstraint< LinTerms, RhsGE >']
@@ -169,6 +169,8 @@ def judge(model, r, want_points=None):
                 if abs(best - ov) > 1e-6 * max(1.0, abs(ov)):
                     return {'verdict': 'violation', 'kind': 'objective', 'point': p, 'nl_obj': ov,
                             'delivered_best': best}
+    except LPFMDisagree as u:
+        return {'verdict': 'oracle-internal', 'why': str(u)}
     except Undecided as u:
         return {'verdict': 'undecided', 'why': str(u)}
     return {'verdict': 'ok', 'nfeas': nfeas, 'ninf': ninf, 'has_aux': has_aux,
